@@ -1,26 +1,19 @@
-use nvh::props::c18::Case;
-use nvh::props::c17::esh_reference;
-use nvh::tools::density::LogDensity;
-use nvh::tools::spy::Spy;
-use nuts_rs::{Chain, CpuMath, Settings};
-use nuts_rs::rand::SeedableRng;
+use nvh::engine::{Part, Tier, new_runner};
+use nvh::props::c04::{Posterior, check_posterior};
+use proptest::strategy::{Strategy, ValueTree};
+use rayon::prelude::*;
+use std::collections::BTreeMap;
 fn main() {
     nvh::engine::install_quiet_panic_hook();
-    let p = std::env::args().nth(1).unwrap();
-    let v: serde_json::Value = serde_json::from_str(&std::fs::read_to_string(p).unwrap()).unwrap();
-    let c: Case = serde_json::from_value(v["case"].clone()).unwrap();
-    let nvh::tools::chain::AnySettings::DiagMclmc(s) = c.spec.build() else { panic!() };
-    let math = Spy::recording(CpuMath::new(LogDensity::new(c.dens.clone())));
-    let mut rng = nuts_rs::rand::rngs::ChaCha8Rng::seed_from_u64(c.spec.seed);
-    let mut chain = s.new_chain(0, math, &mut rng);
-    chain.set_position(&c.init).unwrap();
-    for _ in 0..57 { let _ = chain.expanded_draw(); }
-    let m = chain.math();
-    let (g, before, step, after, dke) = &m.rec.esh[21];
-    let nb = before.iter().map(|x| x*x).sum::<f64>().sqrt();
-    let gn = g.iter().map(|x| x*x).sum::<f64>().sqrt();
-    let alpha: f64 = before.iter().zip(g).map(|(p,g)| p*g/gn).sum();
-    println!("nb-1={:e} gn={gn:e} step={step} delta={:e} alpha={alpha:.17} after={after:?} dke={dke:.17}", nb-1.0, step*gn/4.0);
-    let (e, d) = esh_reference(g, before, *step);
-    println!("ref dke={d:.17} ref={e:?}");
+    let strat = Posterior.strategy(Tier::Quick);
+    let mut runner = new_runner(99, "X", "c04-cal");
+    let cases: Vec<_> = (0..3000).map(|_| strat.new_tree(&mut runner).unwrap().current()).filter(|c| !c.exact).collect();
+    println!("{} euclidean cases", cases.len());
+    let res: Vec<(Vec<(String, f64)>, Option<String>)> = cases.par_iter().map(|c| { let mut rep = vec![]; let o = check_posterior(c, 1000, Some(&mut rep)); (rep, o.failure.map(|f| f.message)) }).collect();
+    let mut worst: BTreeMap<String, (f64, usize, usize)> = BTreeMap::new();
+    for (rep, fail) in &res {
+        if let Some(f) = fail { println!("FAIL: {f}"); }
+        for (k, z) in rep { let e = worst.entry(k.split(':').nth(1).unwrap().to_string()).or_insert((0.0, 0, 0)); if z.abs() > e.0 { e.0 = z.abs(); } e.1 += 1; if z.abs() > 5.0 { e.2 += 1; } }
+    }
+    for (k, (z, n, n5)) in worst { println!("{k}: max|z| = {z:.2} over {n} tests, {n5} above 5"); }
 }
